@@ -23,7 +23,9 @@ Step(e) ==
     [] e.op = "raised" -> IF e.cls # e.expected THEN Fail(IF e.closed THEN "UseAfterClose" ELSE "ErrorsMapped")
                           ELSE IF ~e.legit THEN Fail("RaisesOnlyForACause")      \* connected, not closed, the backend reported nothing and (for a read) data was there
                           ELSE verdict' = "ok" /\ Keep
-    [] e.op = "wrote" -> IF e.k # e.accepted THEN Fail("WriteCount") ELSE verdict' = "ok" /\ Keep
+    [] e.op = "wrote" -> IF e.k # e.accepted THEN Fail("WriteCount")
+                         ELSE IF ~e.prefixOk THEN Fail("WritesAPrefix")        \* what reached the OUT endpoint is exactly the first k bytes offered, in order
+                         ELSE verdict' = "ok" /\ Keep
     [] e.op = "error" -> Fail(e.clause)
     [] OTHER -> verdict' = "ok" /\ Keep
 Next ==
